@@ -416,6 +416,7 @@ func (cc *Conn) doInternal(req *pool.Message) (*pool.Message, error) {
 		case respChan <- r:
 		default:
 		}
+		verifhook.Yield("udp.doInternal.afterHandOver", token.Hash())
 		// A response is an implicit acknowledgement of the confirmable request (RFC 7252 5.2.2): when it
 		// overtakes the empty ACK, or the ACK is lost, stop waiting for (and retransmitting for) the ACK.
 		if elem, ok := cc.midHandlerContainer.LoadAndDelete(req.MessageID()); ok {
